@@ -48,14 +48,17 @@ type dbSuite struct {
 	bigLoad  int // kvbig: number of leading bulk-load transactions
 	openLine string
 	// crash-image capture (armed by a `capture` line for the next commit / merge)
-	capture   bool
-	armed     bool
-	images    []crashImage
-	imgLeft   int
-	imgNext   int
-	armedGen  bool
-	faultGen  bool
-	mergeNext bool
+	capture      bool
+	armed        bool
+	images       []crashImage
+	imgLeft      int
+	imgNext      int
+	armedGen     bool
+	bkN          int // backups taken in this case
+	bkAfterMerge bool
+	bkPending    int // transactions to go before the last backup is opened and observed (-1: none pending)
+	faultGen     bool
+	mergeNext    bool
 	// power-loss shadow: content that has reached stable storage (sync'ed), pending writes per file
 	durable  map[string][]byte
 	pending  map[string][]pendWrite
@@ -80,7 +83,7 @@ func init() {
 	suites["db"] = func() suite {
 		return &dbSuite{profile: dbProfile}
 	}
-	for _, p := range []string{"kv", "structs", "mixed", "merge", "iso", "list", "set", "zset", "crash", "mcrash", "backup", "mergekv", "kvbig", "optskv", "optsmixed"} {
+	for _, p := range []string{"kv", "structs", "mixed", "merge", "iso", "list", "set", "zset", "crash", "mcrash", "backup", "mergekv", "kvbig", "optskv", "optsmixed", "sparse"} {
 		p := p
 		suites["db-"+p] = func() suite { return &dbSuite{profile: p} }
 	}
@@ -284,6 +287,7 @@ func (s *dbSuite) newCase(id int) {
 	s.nkeys = 0
 	s.bigTx, s.bigLoad = 0, 3+id%9
 	s.faultAt = -1
+	s.bkN, s.bkPending, s.bkAfterMerge = 0, -1, false
 	s.optRng = nil
 	if strings.HasPrefix(s.profile, "opts") {
 		g := 8
@@ -532,6 +536,45 @@ func (s *dbSuite) exec(line string) string {
 			s.db = nil
 		}
 		return errOr(err, "")
+	case "backup":
+		// DB.Backup into a fresh directory; the copy is opened later by `backupobs <n>`
+		if s.db == nil {
+			return "err"
+		}
+		dst := fmt.Sprintf("%s/backup-%s", s.scratch, f[1])
+		os.RemoveAll(dst)
+		res := "ok"
+		func() {
+			defer func() {
+				if r := recover(); r != nil {
+					res = "panic"
+				}
+			}()
+			if err := s.db.Backup(dst); err != nil {
+				res = "err"
+			}
+		}()
+		return res
+	case "backupobs":
+		dst := fmt.Sprintf("%s/backup-%s", s.scratch, f[1])
+		opt := s.opt
+		opt.Dir = dst
+		res := "open=err"
+		func() {
+			defer func() {
+				if r := recover(); r != nil {
+					res = "open=panic"
+				}
+			}()
+			db2, err := nutsdb.Open(opt)
+			if err != nil {
+				return
+			}
+			tmp := &dbSuite{db: db2, dir: dst, opt: opt}
+			res = "open=ok obs=" + strings.TrimPrefix(tmp.observe(), "ok ")
+			db2.Close()
+		}()
+		return "ok " + res
 	case "merge":
 		if s.db == nil {
 			return "err"
@@ -803,6 +846,14 @@ func (s *dbSuite) genBucket(r *rand.Rand) string {
 // kindBucket concentrates each structure on two bucket names (overlapping between structures,
 // so same-named buckets of different structures occur), with an occasional stray.
 func (s *dbSuite) kindBucket(r *rand.Rand, kind string) string {
+	if s.profile == "sparse" {
+		// composite keys bucket++key are ambiguous when one bucket name is a prefix of another (a recorded
+		// finding): mostly unrelated names, now and then a related one
+		if r.Intn(25) == 0 {
+			return "ab"
+		}
+		return []string{"a", "a", "a", "b", "c"}[r.Intn(5)]
+	}
 	if s.profile == "iso" || r.Intn(12) == 0 {
 		return s.genBucket(r)
 	}
@@ -871,6 +922,10 @@ func (s *dbSuite) gen(r *rand.Rand, step int) string {
 		if s.profile == "kv" && r.Intn(3) == 0 {
 			seg = 96 // = 2 records of 48 bytes exactly: exactly-full segments
 		}
+		if s.profile == "sparse" {
+			mode = 2
+			seg = []int{128, 160, 200, 256, 512}[r.Intn(5)]
+		}
 		if s.profile == "kvbig" {
 			// large buckets: B+ trees of two and three levels, long scans, paging far into a bucket
 			mode = r.Intn(2)
@@ -921,10 +976,23 @@ func (s *dbSuite) gen(r *rand.Rand, step int) string {
 			s.armedGen = false
 			s.imgNext = 0
 			s.pendObs = true
+			s.bkAfterMerge = true // a backup right after a Merge, looked at a few transactions later
 			return fmt.Sprintf("merge %d", s.now())
 		case x == 2:
 			// a call on a finished transaction
 			return s.genOp(r, true)
+		case (x == 6 || (s.bkAfterMerge && x < 20)) && (s.profile == "mixed" || s.profile == "merge" || s.profile == "kv") && s.bkPending < 0:
+			s.bkAfterMerge = false
+			s.bkN++
+			s.bkPending = 2 + r.Intn(4)
+			return fmt.Sprintf("backup %d", s.bkN)
+		}
+		if s.bkPending == 0 {
+			s.bkPending = -1
+			return fmt.Sprintf("backupobs %d %d", s.bkN, s.now())
+		}
+		if s.bkPending > 0 {
+			s.bkPending--
 		}
 		s.inTx = true
 		s.txW = r.Intn(5) != 0
@@ -988,7 +1056,7 @@ func (s *dbSuite) genOp(r *rand.Rand, dead bool) string {
 	} else if kind == "mcrash" {
 		// mostly overwrites and deletes of few keys: segments that are mostly garbage
 		kind = []string{"kv", "kv", "kv", "kv", "kv", "kv", "set", "zset", "list"}[r.Intn(9)]
-	} else if kind == "optskv" {
+	} else if kind == "optskv" || kind == "sparse" {
 		kind = "kv"
 	} else if kind == "mixed" || kind == "merge" || kind == "iso" || kind == "crash" || kind == "optsmixed" {
 		kind = []string{"kv", "kv", "list", "set", "zset"}[r.Intn(5)]
